@@ -95,6 +95,14 @@ func (C03) Generate(r *rand.Rand, tier string, idx int) *drv.Scenario {
 		}
 	}
 	g := GenKVHistory(r, o)
+	// a restart right after a repository was created or a version was committed without note
+	// (nothing else has re-saved the metadata yet)
+	for i := len(g.Steps) - 1; i >= g.Fixed; i-- {
+		if (g.Steps[i].Op == "repo" || (g.Steps[i].Op == "commit" && g.Steps[i].Mode == "bare")) && r.IntN(2) == 0 {
+			rs := drv.Op{Op: "restart", Mode: pick(r, []string{"clean", "kill"})}
+			g.Steps = append(g.Steps[:i+1], append([]drv.Op{rs}, g.Steps[i+1:]...)...)
+		}
+	}
 	// make sure there is at least one restart, placed after some work
 	has := false
 	for _, s := range g.Steps {
